@@ -233,7 +233,8 @@ func findTrakEnds(traks []*mp4.TrakBox, endTime, endTimescale uint64) (map[uint3
 		trackTimeScale := trak.Mdia.Mdhd.Timescale
 		trackEndTime := endTime
 		if trackTimeScale != uint32(endTimescale) {
-			trackEndTime = endTime * uint64(trackTimeScale) / endTimescale
+			// Round up so that a sample starting a fraction of a tick before the end time is kept
+			trackEndTime = (endTime*uint64(trackTimeScale) + endTimescale - 1) / endTimescale
 		}
 		stts := stbl.Stts
 		endSampleNr, err := stts.GetSampleNrAtTime(trackEndTime)
